@@ -258,8 +258,19 @@ def is_module_global(name):
     raise NotImplementedError('is_module_global has no concrete reading (native=False contracts only)')
 
 
+class _SeedProbe:
+    """Concrete reading of rng_seed: the generator's state, comparable (via same) with a seed value - true when a
+    generator freshly made from that seed is in the same state (evaluated at the exit of the constructor)."""
+    def __init__(self, r):
+        self.state = r.getstate()
+
+    def seeded_from(self, seed):
+        import random as _random
+        return _random.Random(seed).getstate() == self.state
+
+
 def rng_seed(r):
-    raise NotImplementedError('rng_seed has no concrete reading')
+    return _SeedProbe(r)
 
 
 def desc_writes_ok():
@@ -275,6 +286,10 @@ def same(a, b):
     """Identity for objects, equality for immutable scalars."""
     if a is b or (type(a) in (int, str, float, bool, tuple) and type(a) is type(b) and a == b):
         return True
+    if isinstance(a, _SeedProbe):
+        return b is None or a.seeded_from(b)       # no seed given: seeded from the system, nothing to compare
+    if isinstance(b, _SeedProbe):
+        return a is None or b.seeded_from(a)
     ia, ib = getattr(a, 'orig_id__', None), getattr(b, 'orig_id__', None)
     return (ia is not None or ib is not None) and (ia if ia is not None else id(a)) == (ib if ib is not None else id(b))
 
